@@ -75,6 +75,14 @@ def build_dag(prog):
     phases = []
     builders = {}
     for ph in prog["phases"]:
+        if prog.get("shared_builder_label"):
+            # every phase is built by a CodeBuilder with the SAME label: statement ids coincide across phases
+            # (nothing in dagrt requires ids to be unique across phases)
+            cb = L.CodeBuilder(prog["shared_builder_label"])
+            apply_ops(cb, ph["ops"])
+            builders[ph["name"]] = cb
+            phases.append(L.ExecutionPhase(name=ph["name"], next_phase=ph["next"], statements=frozenset(cb.statements)))
+            continue
         cb = L.CodeBuilder(ph["name"])
         apply_ops(cb, ph["ops"])
         builders[ph["name"]] = cb
